@@ -44,7 +44,7 @@ macro "ent_tac" : tactic =>
     revert m E
     intro m E
     obtain ⟨key, refs, value, err, wlocked, viaCtor, ctor, failing, waiters, lsWaiters,
-      holders, deadRefs, del2, del3, destructed, ctorRuns, refReaders⟩ := E
+      holders, deadRefs, del2, del3, destructed, ctorRuns⟩ := E
     simp only [EntInv]
     cases err <;> cases wlocked <;> cases viaCtor <;> cases m <;> simp <;> intros <;>
       first | omega | (subst_vars; simp_all; done) | (subst_vars; simp_all; omega)))
@@ -124,7 +124,8 @@ theorem ent_del3 (h : EntInv m E) (hh : 0 < E.del3) :
     EntInv m { E with del3 := E.del3 - 1, destructed := E.destructed + 1 } := by
   ent_tac
 
-theorem ent_refReaders (n : Nat) (h : EntInv m E) : EntInv m { E with refReaders := n } := by
+theorem ent_lsRead_err (h : EntInv m E) (hh : 0 < E.lsWaiters) (he : E.err = true) (hw : E.wlocked = false) :
+    EntInv m { E with lsWaiters := E.lsWaiters - 1, deadRefs := E.deadRefs + 1 } := by
   ent_tac
 
 /-- what a holder can rely on -/
@@ -198,8 +199,6 @@ theorem inv_upd {s : G} {e : Nat} {f : Entry → Entry} (h : Inv s)
       rw [this]; exact h2
 
 theorem inv_bump {s : G} (h : Inv s) : Inv (bumpVal s) := ⟨h.ent, h.pool⟩
-
-theorem inv_setRangers {s : G} (n : Nat) (h : Inv s) : Inv (setRangers s n) := ⟨h.ent, h.pool⟩
 
 /-- a fresh entry stored under a key that was absent -/
 theorem inv_alloc {s : G} {k : Nat} {E : Entry} (h : Inv s) (hn : s.pool k = none)
